@@ -13,7 +13,8 @@
     snapshot), proved for every policy and every interleaving. *)
 From Coq Require Import List Bool Arith.
 From TG.Model Require Import Sched ServerProto.
-From TG.Proofs Require Import SchedProofs SchedWaitFree ServerProofs.
+From TG.Gen Require Import GenServerSkel.
+From TG.Proofs Require Import SchedProofs SchedWaitFree SchedSource ServerProofs.
 Import ListNotations.
 
 (** In every reachable state of every execution, for any two publications the client has received, the earlier
@@ -68,6 +69,19 @@ Proof. exact @one_mutex_user. Qed.
 Check C11_published_files_sequential : forall (P : Type) (pol : policy) (items : list (item P)) (s : st P),
   reach pol (init (script_of items)) s -> length (filter (@Pind P) (ws s)) <= 1.
 Print Assumptions C11_published_files_sequential.
+
+(** The diagnostics task and the scripts of the LTS used above are the ones of the current sources (regenerated by
+    tools/translate/t_server.py on every run; the translator also insists that the critical section of published_files
+    is the canonical difference-then-replace, that current_files is the key set of the diagnostic map and that the
+    version of a task is the value returned by the read-then-increment bump_diagnostic_version). *)
+Theorem C11_protocol_is_source : forall (P : Type),
+  (forall pubs : list P, gen_diag pubs = diag pubs) /\
+  (forall items : list (item P), gen_script items = script_of items).
+Proof. exact @publication_protocol_is_source. Qed.
+Check C11_protocol_is_source : forall (P : Type),
+  (forall pubs : list P, gen_diag pubs = diag pubs) /\
+  (forall items : list (item P), gen_script items = script_of items).
+Print Assumptions C11_protocol_is_source.
 
 (** Non-vacuity: a history in which a file with a problem leaves the workspace; the final state is reachable;
     its stream clears the file. *)
